@@ -1231,7 +1231,7 @@ fn keyed_term(r: &[(u64, Option<i64>)]) -> String {
 }
 
 /// brute_force_knn on vectors of extreme magnitude: products / squares overflow to +-inf and
-/// inf - inf = NaN.  `forced` = the corpus witness of finding C18-K2.
+/// inf - inf = NaN.  `forced` = the corpus witness of the repaired finding C18-K2 (c04d862): must pass now.
 fn case_brute_extreme(r: &mut Rng, out: &mut Out, forced: bool) {
     let big = 1e30f32;
     let (metric, q, xs): (DistanceMetric, Vec<f32>, Vec<(u64, Vec<f32>)>) = if forced {
@@ -1281,12 +1281,10 @@ fn case_brute_extreme(r: &mut Rng, out: &mut Out, forced: bool) {
     }
     out.emit(&Case {
         kind: "brute-extreme".into(),
-        input: format!("{}metric={} k={} q={:?} xs={:?}", if forced { "corpus:C18-K2-witness " } else { "" }, metric.name(), k, q, xs),
+        input: format!("{}metric={} k={} q={:?} xs={:?}", if forced { "corpus:C18-K2-witness(fixed c04d862) " } else { "" }, metric.name(), k, q, xs),
         coq: Some(format!("chk_brute_keys {} {} {}", keyed_term(&keyed), k, keyed_term(&res_keyed))),
         oracle: if ok { Oracle::Ok } else { Oracle::Fail },
         msg: if ok { String::new() } else { format!("brute_force_knn returned {:?}; the {} nearest in order are {:?}", res, k, want) },
-        kid: if ok { None } else { Some("C18-K2".into()) },
-        kcoq: if ok { None } else { Some(format!("k_nan_distance {}", keyed_term(&keyed))) },
         nontrivial: n >= 2,
         imp: format!("{:?}", res),
         tags,
@@ -1427,9 +1425,9 @@ fn case_qtwin(r: &mut Rng, out: &mut Out, forced: bool) {
     let (oracle, msg, kid, kcoq) = match &got {
         Err(_) => (
             Oracle::Fail,
-            format!("QuantizedHnswIndex::search_with_ef(k={}) panicked (k * rescore_factor overflows)", k),
-            Some("C18-K3".to_string()),
-            Some(format!("k_qoverflow {} {} {}", k, mult_term, coq::b(resc))),
+            format!("QuantizedHnswIndex::search_with_ef(k={}) panicked", k),
+            None::<String>,
+            None::<String>,
         ),
         Ok(res) => {
             if cmp_dist {
@@ -1455,7 +1453,8 @@ fn case_qtwin(r: &mut Rng, out: &mut Out, forced: bool) {
             }
             // with rescoring and no pre-ranking: the k best of the k * factor candidates of the plain index
             if resc && pre == 0 && st.fail.is_none() {
-                if let Some(nc) = mults.iter().try_fold(k, |a, m| a.checked_mul(*m)) {
+                {
+                    let nc = mults.iter().fold(k, |a, m| a.saturating_mul(*m));
                     let mut cands = twin.search_with_ef(&fq, nc, ef);
                     cands.sort_by(|a, b| a.1.partial_cmp(&b.1).unwrap());
                     cands.truncate(k);
@@ -1474,7 +1473,7 @@ fn case_qtwin(r: &mut Rng, out: &mut Out, forced: bool) {
         kind: "quantized-twin".into(),
         input: format!(
             "{}quant={} rescore={} factor={} metric={} dim={} M={} efc={} seed={} :: {} ; search {:?} k={} ef={}",
-            if forced { "corpus:C18-K3-witness " } else { "" }, qn, rescore, factor, mt.name(), dim, m, efc, seed, human.join(" ; "), q, k, ef
+            if forced { "corpus:C18-K3-witness(fixed dc6fd9d) " } else { "" }, qn, rescore, factor, mt.name(), dim, m, efc, seed, human.join(" ; "), q, k, ef
         ),
         coq: Some(format!(
             "chk_qsearch {} (mk_config {} {} {}) [{}] {} {} {} {} {} {} [{}] {} {}",
@@ -1667,16 +1666,14 @@ fn case_operators(r: &mut Rng, out: &mut Out, forced: bool) {
             kind: "op-vector-join".into(),
             input: format!(
                 "{}metric={} mode={} k={} cap={} left_chunk={} maxd={:?} left={:?} vectors={:?} static_q={:?}",
-                if forced { "corpus:C18-K4-witness " } else { "" }, mt.name(), mode, k, cap, left_chunk, maxd, left_nodes.iter().map(|x| x.0).collect::<Vec<_>>(), vecs, qstatic
+                if forced { "corpus:C18-K4-witness(fixed 5466afe) " } else { "" }, mt.name(), mode, k, cap, left_chunk, maxd, left_nodes.iter().map(|x| x.0).collect::<Vec<_>>(), vecs, qstatic
             ),
-            coq: Some(format!("chk_join {} {} {} [{}] {} {}", cap, calls, rows_term, chunks.iter().map(chunk_term).collect::<Vec<_>>().join(";"), coq::b(finished), coq::b(!same))),
+            coq: Some(format!("chk_join {} {} {} [{}] {}", cap, calls, rows_term, chunks.iter().map(chunk_term).collect::<Vec<_>>().join(";"), coq::b(finished))),
             oracle: if ok { Oracle::Ok } else { Oracle::Fail },
             msg: if ok { String::new() } else { st.fail.clone().unwrap_or_else(|| format!("after {} calls (finished={}) the operator produced {} rows, the join has {}: first chunks {:?}", calls, finished, flat.len(), spec.len(), &chunks[..chunks.len().min(3)])) },
-            kid: if ok || st.fail.is_some() { None } else { Some("C18-K4".into()) },
-            kcoq: if ok || st.fail.is_some() { None } else { Some(format!("k_join {} {}", cap, rows_term)) },
             nontrivial: total >= 2,
             imp: format!("{} chunks in {} calls, finished={}", chunks.len(), calls, finished),
-            tags: vec![format!("join-mode={}", mode), format!("join-cap={}", cap), format!("join-left-chunk={}", left_chunk), if ok { "join-ok".into() } else { "join-repeats-rows".into() }],
+            tags: vec![format!("join-mode={}", mode), format!("join-cap={}", cap), format!("join-left-chunk={}", left_chunk), if ok { "join-ok".into() } else { "join-wrong".into() }, if rows.iter().scan(0usize, |a, x| { *a += x.2.len(); Some((*a, x.2.len())) }).any(|(a, l)| l > 0 && cap > 0 && a % cap == 0) { "join-chunk-ends-with-row".into() } else { "join-no-boundary".into() }],
             ..Default::default()
         });
     }
